@@ -729,6 +729,8 @@ def _run_lazy_member(f, slot: str, ctor: str, filled: bool):
                     else:
                         raise AnalysisError(f"store outside the lazy-member grammar: {norm(t)[:40]}")
                 continue
+            if isinstance(s_, ast.Pass):
+                continue
             raise AnalysisError(f"statement outside the lazy-member grammar: {norm(s_)[:50]}")
         return True
 
@@ -886,17 +888,24 @@ def rule_r12(rep, program: Program):
         f = k.methods.get("_scalar_multiply")
         if f is None:
             raise AnalysisError(f"{cname}._scalar_multiply not found")
-        env = single_assignment_locals(f.node)
-        base = None
+        # locals bound exactly once anywhere in the function (branches included): the LU expression is read through them
+        counts = {}
+        for n in ast.walk(f.node):
+            if isinstance(n, ast.Name) and isinstance(n.ctx, ast.Store):
+                counts[n.id] = counts.get(n.id, 0) + 1
+        env = {n.targets[0].id: n.value for n in ast.walk(f.node) if isinstance(n, ast.Assign) and len(n.targets) == 1 and isinstance(n.targets[0], ast.Name) and counts.get(n.targets[0].id) == 1}
+        base = piv = None
         for n in ast.walk(f.node):
             if isinstance(n, ast.Assign) and isinstance(n.targets[0], ast.Tuple) and norm(n.value) in (f"self.{lu_attr}", f"self.{lu_attr[1:]}") and isinstance(n.targets[0].elts[0], ast.Name):
                 base = n.targets[0].elts[0].id
-        calls = [c for c in ast.walk(f.node) if isinstance(c, ast.Call) and call_name(c) in ("DenseSquareMatrix", "InverseLUFactoredSquareMatrix", "type(self)") and any(isinstance(a, ast.Tuple) and len(a.elts) == 2 for a in list(c.args) + [kw.value for kw in c.keywords])]
-        if base is None or not calls:
+                piv = norm(n.targets[0].elts[1])
+        # the forwarded pair (new LU array, pivots), wherever it is built
+        pairs = [t for t in ast.walk(f.node) if isinstance(t, ast.Tuple) and isinstance(t.ctx, ast.Load) and len(t.elts) == 2 and norm(t.elts[1]) == piv]
+        ctor = [c for c in ast.walk(f.node) if isinstance(c, ast.Call) and call_name(c) in ("DenseSquareMatrix", "InverseLUFactoredSquareMatrix", "type(self)") and (c.args or c.keywords) and f"self.{arr_attr}" in norm(c)]
+        if base is None or not pairs or not ctor:
             raise AnalysisError(f"{cname}._scalar_multiply: forwarded LU factors not found")
-        for c in calls:
-            allargs = list(c.args) + [kw.value for kw in c.keywords]
-            lu_t = next(a for a in allargs if isinstance(a, ast.Tuple) and len(a.elts) == 2)
+        for lu_t in pairs:
+            c = ctor[-1]
             arr = c.args[0] if c.args else next(kw.value for kw in c.keywords if kw.arg in ("array", "inv_array"))
             # factor applied to the dense array
             kf = None
